@@ -10,6 +10,7 @@ is_ready_to_reap() true => all results were complete at some step of its window;
 raises; the run does not get stuck waiting.
 """
 import os
+import errno
 import shutil
 
 from .. import probe, refmodel, cropkit, fsshim, sched
@@ -38,6 +39,7 @@ MIN_REACH = {
     "polls_checked": {"quick": 1500, "thorough": 30000},
     "polls_during_write_in_progress": {"quick": 100, "thorough": 2000},
     "distinct_dfs_parts_exhausted": {"quick": 2, "thorough": 2},
+    "growers_whose_result_write_failed_part_way": {"quick": 150, "thorough": 3000},
 }
 TIME_BUDGET = {"quick": 400, "thorough": 3400}
 CASE_TIMEOUT = {"quick": 380, "thorough": 3000}
@@ -54,6 +56,11 @@ CONFIGS = {
     "g3_reaper": (6, 2, [3, 1, 2], True, 0),
     "g3_reaper_poller": (3, 1, [1, 2, 3], True, 3),
     "g3mixed_poller": (4, 2, [1, 2, 1], False, 3),
+    # the FIRST grower's result write fails part-way with an error (disk full / file size limit), a second grower of the
+    # same batch succeeds: the failed attempt must never be visible to the reaper or counted by a poller
+    "g2same_reaper_wfail": (2, 2, [1, 1], True, 0),
+    "g2same_poller_wfail": (2, 2, [1, 1], False, 2),
+    "g3mixed_reaper_poller_wfail": (4, 2, [1, 2, 1], True, 2),
 }
 
 
@@ -64,7 +71,8 @@ def cases(ctx):
     yield {"cfg": "g1_poller", "mode": "dfs", "cap": 5000, "kind": "array:30", "part": [0, 1]}
     J = ctx.pick(2, 16)
     for cfg, cap in (("g2same_poller", ctx.pick(250, 8000)), ("g2_reaper", ctx.pick(250, 8000)),
-                     ("g2same_reaper", ctx.pick(150, 8000))):
+                     ("g2same_reaper", ctx.pick(150, 8000)), ("g2same_reaper_wfail", ctx.pick(150, 4000)),
+                     ("g2same_poller_wfail", ctx.pick(100, 4000))):
         for j in range(J):
             yield {"cfg": cfg, "mode": "dfs", "cap": cap, "kind": "array:30", "part": [j, J]}
     # validation of the reduction itself: brute force over ALL interleavings vs. sleep sets
@@ -121,6 +129,7 @@ class World(object):
         self.B = crop.num_batches
         self.w = {"mode": "grid", "combos": [["a", list(range(1, self.n + 1))]], "names": None, "cases": None}
         self.same_batch_twice = len(set(self.growers)) < len(self.growers)
+        self.wfail = cfg.endswith("_wfail")
         self.resdir = os.path.join(self.root, ".xyz-" + NAME, "results")
 
     def fresh(self):
@@ -181,6 +190,15 @@ def run_schedule(world, chooser):
 
     S = sched.Scheduler(root, contended, chooser, monitor=monitor)
     polls = []
+    injected = []
+
+    def write_fault(actor, path, off, count):
+        # g0's transfer of a result chunk beyond the first byte fails, once
+        if world.wfail and actor == "g0" and not injected and off > 0 and path.startswith(resdir):
+            injected.append(OSError(errno.ENOSPC, "No space left on device (injected)"))
+            return injected[0]
+        return None
+    fsshim.set_write_fault(write_fault if world.wfail else None)
 
     def grower(i):
         def f():
@@ -211,9 +229,12 @@ def run_schedule(world, chooser):
     truth.append(world.complete_results())
     visible.append(world.visible_results())
     writing.append(False)
-    with quiet():        # one redirection around the whole schedule (quiet() is not thread-safe)
-        S.run()
-    return {"S": S, "polls": polls, "truth": truth, "visible": visible, "writing": writing, "unmonitored": list(fsshim.UNMONITORED)}
+    try:
+        with quiet():        # one redirection around the whole schedule (quiet() is not thread-safe)
+            S.run()
+    finally:
+        fsshim.set_write_fault(None)
+    return {"S": S, "injected": injected, "polls": polls, "truth": truth, "visible": visible, "writing": writing, "unmonitored": list(fsshim.UNMONITORED)}
 
 
 def judge(ctx, world, obs, case, extra_sig):
@@ -236,6 +257,9 @@ def judge(ctx, world, obs, case, extra_sig):
     for name, a in S.actors.items():
         if a.outcome[0] == "exc":
             e = a.outcome[1]
+            if obs.get("injected") and name == "g0" and e is obs["injected"][0]:
+                ctx.count("growers_whose_result_write_failed_part_way")
+                continue        # the injected fault itself, surfacing in the grower it was injected into
             ctx.violation(wit, "actor %s raised %r under schedule %s" % (name, e, " ".join(tr[-25:])),
                           dict(sig, oracle="no-actor-raises", actor=name.rstrip("0123456789"), **exc_sig(e)))
             nv += 1
